@@ -81,6 +81,32 @@ fixed("C08", "da4608a", ["c08:framing-accepted:missing-cr:chunk-size-line", "c08
 fixed("C08", "d6eaa4d", ["c08:framing-accepted:missing-cr:trailer-line"],
       "bare LF inside a trailer line accepted ('A: 1\\nB: 2' delivered as one trailer)")
 
+# ---- HTTP response writer
+fixed("C09", "803e108", ["c09:chunked:body-not-decodable(invalid-byte-in-chunk-length)"],
+      "HTTP/1.1 handler Write(65534); Write(1) (or Write(70000); Write(10)): garbage bytes precede the second chunk header, the client cannot decode the body")
+fixed("C09", "af998b6", ["c09:content-length:write-returns-wrong-count"],
+      "Content-Length: 65536; Write(65535); Write(1): the second Write returns (65536, nil)")
+fixed("C09", "6c95d63", ["c09:chunked+trailer:trailer-late-value-sent-empty"],
+      "Trailer: X-A; Write(1); Header().Set(X-A, late): trailer sent with an empty value")
+fixed("C09", "bce539c", ["c09:chunked+trailer-list:body-not-decodable(malformed-trailer-line)", "c09:chunked+trailer-noncanonical-declaration:trailer-value-mismatch", "c09:chunked+trailer-noncanonical-declaration:trailer-late-value-sent-empty"],
+      "Trailer: X-A, X-Checksum sent as one malformed trailer line; 'Trailer: x-a' never matches the canonical key")
+fixed("C09", "afb8909", ["c09:chunked+unregistered-status:status-mismatch"],
+      "WriteHeader(299) / WriteHeader(599) answered as 200 OK")
+fixed("C09", "2a33900", ["c09:http10+flush:body-truncated"],
+      "HTTP/1.0: Write(hello); Flush(); Write( world) declares Content-Length: 5")
+fixed("C09", "424e4da", ["c09:chunked+readfrom:status-mismatch", "c09:chunked+readfrom:body-truncated", "c09:chunked+readfrom:bytes-after-response",
+      "c09:chunked+readfrom:body-not-decodable(invalid-byte-in-chunk-length)", "c09:chunked+readfrom+trailer:framing-not-chunked",
+      "c09:chunked+readfrom:panic-recovered:nbhttp.(*Response).ReadFrom", "c09:content-length+readfrom:panic-recovered:nbhttp.(*Response).ReadFrom",
+      "c09:chunked+readfrom-sendfile:panic-recovered:nbhttp.(*Response).ReadFrom", "c09:content-length+readfrom-limited:bytes-after-response",
+      "c09:content-length+readfrom-limited:body-corrupted", "c09:content-length+flush+readfrom-limited:bytes-after-response",
+      "c09:content-length+flush+readfrom-limited:body-corrupted", "c09:http10+readfrom:body-corrupted", "c09:http10+readfrom:body-truncated"],
+      "Response.ReadFrom: status line 000 and Content-Length: 0 before the body, nil dereferences (no pending buffer; bare *os.File), raw bytes inside a chunked stream, LimitedReader limit dropped, pending body bytes sent after the copied ones")
+fixed("C11", "88ed8b6", ["c11:append-after-free:nbhttp.(*Response).writeChunk", "c11:append-after-free:nbhttp.(*Response).flush",
+      "c11:double-free:nbhttp.(*Response).writeChunk:first-free:nbhttp.(*Response).writeChunk", "c11:double-free:nbhttp.(*Response).flush:first-free:nbhttp.(*Response).writeChunk",
+      "c11:double-free:nbhttp.(*Response).ReadFrom:first-free:nbhttp.(*Response).writeChunk", "c11:freed-buffer-handed-to-conn-write:nbhttp.(*Response).writeChunk",
+      "c11:freed-buffer-handed-to-conn-write:nbhttp.(*Response).flush", "c11:freed-buffer-handed-to-conn-write:nbhttp.(*Response).Flush", "c11:freed-buffer-handed-to-conn-write:nbhttp.(*Response).ReadFrom"],
+      "chunked handler, a single Write(74373) (or Write(60000); Write(6000); Write(1)): writeChunk frees the pending buffer, keeps appending to it, hands it to conn.Write and frees it again")
+
 # ---- executors / deadlines
 fixed("C19", "8a372c3", ["c19:taskpool:capacity-not-recovered"],
       "taskpool.New(8,1024) after a burst of 2000 short tasks: a barrier of 7 mutually waiting tasks never completes (the dispatcher's failed fork keeps its slot)")
